@@ -98,3 +98,31 @@ Proof. induction s; cbn; [reflexivity|]. rewrite IHs. reflexivity. Qed.
 Lemma remove_chars_flat_map cs s :
   remove_chars cs s = flat_map (fun x => if existsb (ceqb x) cs then [] else [x]) s.
 Proof. induction s as [|x s IH]; cbn; [reflexivity|]. rewrite IH. destruct (existsb (ceqb x) cs); reflexivity. Qed.
+
+(* ---- result monad ---- *)
+Lemma bind_ok {A B} (r : result A) (f : A -> result B) b :
+  bind r f = Ok b -> exists a, r = Ok a /\ f a = Ok b.
+Proof. destruct r; cbn; [eauto|discriminate]. Qed.
+
+Lemma mapM_ok {A B} (f : A -> result B) l : forall l',
+  mapM f l = Ok l' -> Forall2 (fun a b => f a = Ok b) l l'.
+Proof.
+  induction l as [|a l IH]; intros l' H; cbn in H.
+  - inversion H. constructor.
+  - apply bind_ok in H as [b [Hb H]]. apply bind_ok in H as [bs [Hbs H]]. inversion H; subst.
+    constructor; [assumption|apply IH; assumption].
+Qed.
+
+Lemma Forall2_in_r {A B} (R : A -> B -> Prop) l l' b :
+  Forall2 R l l' -> In b l' -> exists a, In a l /\ R a b.
+Proof.
+  induction 1 as [|x y l l' Hxy H IH]; cbn; [tauto|]. intros [<-|Hin]; [eauto|].
+  destruct (IH Hin) as [a [Ha Hr]]. eauto.
+Qed.
+
+Lemma Forall2_in_l {A B} (R : A -> B -> Prop) l l' a :
+  Forall2 R l l' -> In a l -> exists b, In b l' /\ R a b.
+Proof.
+  induction 1 as [|x y l l' Hxy H IH]; cbn; [tauto|]. intros [<-|Hin]; [eauto|].
+  destruct (IH Hin) as [b [Hb Hr]]. eauto.
+Qed.
